@@ -39,6 +39,11 @@ let to_raw (x : v) : M.rawband =
   match x with
   | L [f; a; b] -> { M.rb_flag = to_z f; M.rb_flux = to_q a; M.rb_err = to_q b }
   | _ -> raise (Bad "rawband")
+(* a row given directly: flag, log flux (data), log error / confidence, weight, a, s, log model flux *)
+let to_row (x : v) : M.row =
+  match x with
+  | L [f; lf; le; w; a; s; lm] -> { M.r_b = { M.b_flag = to_z f; M.b_lf = to_q lf; M.b_le = to_q le; M.b_w = to_q w }; M.r_a = to_q a; M.r_s = to_q s; M.r_lm = to_q lm }
+  | _ -> raise (Bad "row")
 let to_pt (x : v) : M.q * M.q = to_pair to_q to_q x
 let of_fitres (r : M.fitres) : v = L [of_q r.M.f_av; of_q r.M.f_sc; of_xnum r.M.f_chi2; of_list of_q r.M.f_pred]
 let of_fitres3 (r : M.fitres3) : v =
@@ -126,6 +131,13 @@ let dispatch (op : string) (x : v) : v =
       let md = match m with S "interp" -> M.Interp | S "largest" -> M.Largest | S "largest+smallest" -> M.LargestSmallest | S "all" -> M.AllAp | _ -> raise (Bad "mode") in
       of_list (fun (i, j) -> L [of_nat i; of_nat j]) (M.curve_list md (to_nat nu) (to_nat n))
   | "curve_val", [f; dd; d; k; av; kk] -> of_q (M.curve_val pw (to_q f) (to_q dd) (to_q d) (to_q k) (to_q av) (to_q kk))
+  | "get_log_fluxes", [raws] ->
+      of_list (fun r -> let b = M.get_log_fluxes_m lg ln10 (to_raw r) in L [of_z b.M.b_flag; of_q b.M.b_w; of_q b.M.b_lf; of_q b.M.b_le]) (args raws)
+  | "linreg", [rows] ->
+      let (p1, p2) = M.linreg_m (to_list to_row rows) in L [of_q p1; of_q p2]
+  | "optscale_sc", [av; rows] -> of_q (M.optscale_sc_m (to_q av) (to_list to_row rows))
+  | "optscale_av", [rows] -> of_q (M.optscale_av_m (to_list to_row rows))
+  | "chi2", [rows; av; sc] -> of_q (M.chi2_m pen (to_list to_row rows) (to_q av) (to_q sc))
   | "ndist", [l; step] -> of_z (M.ndist (to_q l) (to_q step))
   | "gridlog", [lo; hi; n] -> of_list of_q (M.gridlog_m (to_q lo) (to_q hi) (to_nat n))
   | "rank", [chi] -> of_list of_nat (M.rank_m (to_list to_xnum chi))
